@@ -7,6 +7,9 @@ CONSTANTS
   Buffer = 1
   UOff = 3
   MaxT = 161
+  MaxH = 0
+  MaxSub = 0
+  MaxMem = 0
   RelCap = 24
   GraceCap = 13
   ParSet <- ParSet20
